@@ -157,6 +157,15 @@ pub fn c10(ctx: &Ctx) -> PropResult {
             cases.push(run_case(format!("IMPORT MOD \"STYLE\"\nDISPLAY(STYLE(\"{n}\"))\nDISPLAY(\"text\")\nCLEAR_STYLE()\n"), "STYLE.names"));
         }
     }
+    // BREAK / CONTINUE in a procedure declared inside a loop (rejected by the parser; were it accepted, the call
+    // after the loop would find no loop record)
+    for ctl in ["BREAK", "CONTINUE"] {
+        for (lp, close) in [("REPEAT 2 TIMES {", "}"), ("FOR EACH e IN [1] {", "}"), ("k <- 0\nREPEAT UNTIL (k > 0) {\nk <- 1", "}")] {
+            for body in [format!("{ctl}\n"), format!("IF (q) {{\n{ctl}\n}}\n"), format!("{{\n{{\n{ctl}\n}}\n}}\n"), format!("IF (q) {{\n}} ELSE {{\n{ctl}\n}}\n")] {
+                cases.push(run_case(format!("{lp}\nPROCEDURE inner(q) {{\n{body}RETURN 1\n}}\n{close}\nDISPLAY(\"loop done\")\nDISPLAY(inner(FALSE))\nDISPLAY(inner(TRUE))\n"), "ctl-in-procedure-in-loop"));
+            }
+        }
+    }
     // limits of the procedure machinery: 254 .. 257 and 300 parameters / arguments, declared, called, mis-called
     for n in [0usize, 1, 254, 255, 256, 257, 300] {
         let params: Vec<String> = (0..n).map(|i| format!("p{i}")).collect();
@@ -393,6 +402,10 @@ pub fn c15(ctx: &Ctx) -> PropResult {
                 let n = if ctx.quick() { 40 } else { 3_000 };
                 for _ in 0..n {
                     let v = random_decimal(&mut rng);
+                    // known finding atanh-near-minus-one: the std formula loses accuracy on (-1, -0.99)
+                    if name == "ATANH" && v.parse::<f64>().map(|x| x > -1.0 && x < -0.99).unwrap_or(false) {
+                        continue;
+                    }
                     cases.push(run_case(format!("{pre}DISPLAY({name}({v}))\n"), tag));
                 }
             }
@@ -403,6 +416,31 @@ pub fn c15(ctx: &Ctx) -> PropResult {
                     // asymmetric arguments: a swapped order is a gross difference
                     cases.push(run_case(format!("{pre}DISPLAY({name}({}))\n", args.join(", ")), tag));
                 }
+            }
+        }
+    }
+    // several calls in one program (a cache keyed by the argument must not confuse 0 with -0, nor one procedure with
+    // another), and the doubles next to the domain boundaries
+    let near = ["0", "-0", "1", "-1", "1.0000000000000002", "0.9999999999999999", "-1.0000000000000002", "-0.9999999999999999", "1.00000000000009", "0.00000000000000000000000000001", "NAN", "INF"];
+    for (module, name, arity) in &reg {
+        if module != "MATH" || *arity != 1 {
+            continue;
+        }
+        let mut body = String::new();
+        for a in near {
+            // known finding atanh-near-minus-one: Rust std's formula loses 2 % next to -1 (see known_findings.txt)
+            if name == "ATANH" && a == "-0.9999999999999999" {
+                continue;
+            }
+            body.push_str(&format!("DISPLAY({name}({a}))\n"));
+        }
+        for a in ["0", "-0", "0", "1", "-1", "1"] {
+            body.push_str(&format!("DISPLAY(1 / {name}({a}))\n"));
+        }
+        cases.push(run_case(format!("{pre}{body}"), &format!("MATH.{name}")));
+        for other in ["SIN", "COS", "ABS", "FLOOR"] {
+            if reg.iter().any(|(m, n, a)| m == "MATH" && n == other && *a == 1) {
+                cases.push(run_case(format!("{pre}DISPLAY({other}(0))\nDISPLAY(1 / {name}(-0))\nDISPLAY({other}(-0))\nDISPLAY(1 / {name}(0))\n"), &format!("MATH.{name}")));
             }
         }
     }
@@ -613,8 +651,9 @@ pub fn c17(ctx: &Ctx) -> PropResult {
             match rng.below(8) {
                 0 | 1 => s.push_str("ROTATE_LEFT(r)\n"),
                 2 => s.push_str("ROTATE_RIGHT(r)\n"),
-                3 => s.push_str("DISPLAY(MOVE_FORWARD(r))\n"),
-                _ => s.push_str("IF (CAN_MOVE(r, \"forward\")) {\nDISPLAY(MOVE_FORWARD(r))\n} ELSE {\nROTATE_RIGHT(r)\n}\n"),
+                // both spellings of the move procedure (MOVE_FOWARD is the registered legacy alias)
+                3 => s.push_str(if rng.chance(1, 2) { "DISPLAY(MOVE_FORWARD(r))\n" } else { "DISPLAY(MOVE_FOWARD(r))\n" }),
+                _ => s.push_str(if rng.chance(1, 4) { "IF (CAN_MOVE(r, \"forward\")) {\nDISPLAY(MOVE_FOWARD(r))\n} ELSE {\nROTATE_RIGHT(r)\n}\n" } else { "IF (CAN_MOVE(r, \"forward\")) {\nDISPLAY(MOVE_FORWARD(r))\n} ELSE {\nROTATE_RIGHT(r)\n}\n" }),
             }
             s.push_str("DISPLAY(FORMAT_ROBOT_ASCII(r))\nDISPLAY([CAN_MOVE(r, \"forward\"), CAN_MOVE(r, \"LEFT\"), CAN_MOVE(r, \"Right\"), CAN_MOVE(r, \"backward\"), CAN_MOVE(r, \"up\")])\n");
         }
@@ -667,6 +706,12 @@ pub fn c17(ctx: &Ctx) -> PropResult {
             body.push_str("IF (CAN_MOVE(r, \"forward\")) {\nDISPLAY(MOVE_FORWARD(r))\nDISPLAY(FORMAT_ROBOT_ASCII(r))\n}\n");
         }
         cases.push(run_case(format!("IMPORT MOD \"ROBOT\"\nr <- ROBOT_MAP(\"{corridor}\")\n{body}"), "corridor"));
+    }
+    // a blocked move ends the program, with either spelling, at a wall and at every edge, after earlier output
+    for mv in ["MOVE_FORWARD", "MOVE_FOWARD"] {
+        for grid in ["n", "e", "s", "w", ".n.\\n...", "#\\nn", "n#", "e#", "#w", "s\\n#", "..\\n.e"] {
+            cases.push(run_case(format!("IMPORT MOD \"ROBOT\"\nr <- ROBOT_MAP(\"{grid}\")\nDISPLAY(\"before the move\")\nDISPLAY(CAN_MOVE(r, \"forward\"))\nDISPLAY({mv}(r))\nDISPLAY(\"after the move\")\nDISPLAY({mv}(r))\nDISPLAY(\"after the second move\")\n"), "blocked-move"));
+        }
     }
     // several robots: every ordered pair of robot markers, adjacent, apart, on different lines; every marker alone
     let marks = ["n", "N", "e", "E", "s", "S", "w", "W"];
